@@ -7,6 +7,7 @@ sys.path.insert(0, os.path.dirname(os.path.abspath(__file__)))
 import framework  # noqa: E402
 import dbgcases as dc  # noqa: E402
 import dbgprops as dp  # noqa: E402
+import runcases as rc  # noqa: E402
 
 PID = "C11"
 TARGETS = ["Properties/C11.vo"]
@@ -19,6 +20,50 @@ ASSUMPTIONS = [
     "--warn-return-off) is checked by the session correspondence and the interpreter oracle, not by the theorem",
 ]
 TRUSTED = ["coq/Model/Run.v", "coq/Model/Debugger.v", "coq/Model/Session.v (hand models of vm.run, Debugger, Shell handlers)"]
+
+
+def cli_debug_oracle():
+    """`hera debug <options> file` driven by `continue` prints what `hera <options> file` prints: the command line
+    builds the debugger's machine from the same options as the interpreter's."""
+    import contextlib
+    import io
+    import tempfile
+    from hera.main import main
+    text = ('DLABEL(v)\nINTEGER(42)\nSET(R1, 5)\nprint_reg(R1)\nprintln("x")\nADD(R2, R1, R3)\nprint_reg(R2)\n'
+            'SET(R4, v)\nLOAD(R5, 0, R4)\nprint_reg(R5)\nprint_reg(R4)\nSET(R13, 14)\nRETURN(R12, R13)\nprint_reg(R6)\nHALT()\n')
+    problems = []
+    with tempfile.TemporaryDirectory() as d:
+        p = os.path.join(d, "p.hera")
+        open(p, "w").write(text)
+        for opts in ([], ["--big-stack"], ["--init", "r3=7, r6=9"], ["--init=r3=0xFFFF"], ["--warn-return-off"],
+                     ["--big-stack", "--init", "r6=1", "--warn-return-off"]):
+            outs = []
+            for argv, stdin in ((["--quiet"] + opts + [p], ""), (["debug"] + opts + [p], "continue\nquit\n")):
+                out, err = io.StringIO(), io.StringIO()
+                old = sys.stdin
+                sys.stdin = io.StringIO(stdin)
+                try:
+                    with contextlib.redirect_stdout(out), contextlib.redirect_stderr(err):
+                        try:
+                            rc.with_budget(lambda: main(list(argv)), 10.0)
+                        except SystemExit:
+                            pass
+                        except rc.Budget:
+                            problems.append("hera %s did not finish within 10 s" % " ".join(argv[:-1]))
+                        except BaseException as e:  # noqa
+                            problems.append("hera %s raised %s" % (" ".join(argv[:-1]), type(e).__name__))
+                finally:
+                    sys.stdin = old
+                outs.append((out.getvalue(), err.getvalue()))
+            want = [l for l in outs[0][0].splitlines() if l.strip()]
+            got = [l.replace(">>> ", "") for l in outs[1][0].splitlines()]
+            got = [l for l in got if l.startswith(("R", "x")) and "=" in l or l == "x"]
+            if [l for l in want if l.startswith("R") or l == "x"] != got:
+                problems.append("hera debug %s (continue) prints %r; hera %s prints %r" % (" ".join(opts), got, " ".join(opts), want))
+            w1, w2 = outs[0][1].count("Warning"), outs[1][1].count("Warning") + outs[1][0].count("Warning")
+            if w1 != w2:
+                problems.append("hera debug %s issues %d warning(s), hera %s issues %d" % (" ".join(opts), w2, " ".join(opts), w1))
+    return problems
 
 
 def correspondence(ctx, model_available=True):
@@ -38,6 +83,8 @@ def correspondence(ctx, model_available=True):
         stats["warnings"] += st["warnings"]
         if p:
             spec_failures.append({"what": p, "session": dp.session_json(s)})
+    for b in cli_debug_oracle():
+        spec_failures.append({"what": b})
     for h in res["hypothesis_false"]:
         spec_failures.append({"what": "only_last_branches is false of a preprocessed program", "session": h})
     dist = dict(stats)
